@@ -1,7 +1,7 @@
 (* C14 — Sequencers hand out disjoint gap-free ranges; cursor is the published prefix. *)
 From Coq Require Import List Arith NArith Lia.
 From DC Require Import Disruptor.Claims Disruptor.Pipeline.
-From DC Require Disruptor.SeqApi Disruptor.SeqApiProofs Disruptor.SeqApiMulti Disruptor.SeqApiInOrder Disruptor.MultiPub Disruptor.MultiReplay.
+From DC Require Disruptor.SeqApi Disruptor.SeqApiProofs Disruptor.SeqApiMulti Disruptor.SeqApiInOrder Disruptor.MultiPub Disruptor.MultiReplay Disruptor.Clones.
 From Coq Require Import ZArith.
 Import ListNotations.
 
@@ -126,3 +126,16 @@ Print Assumptions C14_claims_cover_without_gaps.
 Print Assumptions C14_claims_have_requested_length.
 Print Assumptions C14_cursor_never_decreases.
 Print Assumptions C14_single_cursor_is_published_prefix.
+
+(* FINDING D13 (refuted on the model of impl Clone for MultiProducerSequencer, witnessed on the implementation by harness/ds family
+   seqclone): whatever the state of the sequencer the clones are taken from, the first claim of c sequences through EACH clone is
+   (1, c) - also after the other clone has claimed and published that very range.  Claims through clones are not disjoint. *)
+Theorem C14_claims_through_clones_overlap_refuted : forall s c, (c <? SeqApi.mp_size s)%N = true ->
+  let a := Clones.mp_clone s in let b := Clones.mp_clone s in
+  snd (SeqApi.mp_step a (SeqApi.SNext c)) = SeqApi.RClaim 1 c /\
+  (let a1 := fst (SeqApi.mp_step a (SeqApi.SNext c)) in
+   let a2 := fst (SeqApi.mp_step a1 (SeqApi.SPublish 1 c)) in
+   snd (SeqApi.mp_step (Clones.share_cursor a2 b) (SeqApi.SNext c)) = SeqApi.RClaim 1 c).
+Proof. exact Clones.clones_hand_out_the_same_range. Qed.
+
+Print Assumptions C14_claims_through_clones_overlap_refuted.
